@@ -1,7 +1,7 @@
 import re
 from fractions import Fraction as frac
 
-VAR_REGEX = re.compile(r"[a-zA-Z€$£¥][_a-zA-Z0-9€$£¥]*")
+VAR_REGEX = re.compile(r"[a-zA-Zμ€$£¥][_a-zA-Z0-9μ€$£¥]*")
 
 class Token:
     def __init__(self, tag, begin_index_incl, end_index_excl, **kwargs):
